@@ -1284,8 +1284,19 @@ impl RaftLogManager {
         }
         if pop_count > 0 {
             let log_count = self.logs.len() - pop_count;
+            // the files above the cut are gone for good: remove them, a later roll-over reuses their ids
+            for item in &self.logs[log_count..] {
+                if let Some(log_actor) = &item.log_actor {
+                    log_actor.do_send(RaftLogCmd::Close);
+                }
+                let path = Self::get_log_path(&self.base_path, &item.log_range);
+                std::fs::remove_file(path).ok();
+            }
             self.logs = self.logs[..log_count].to_vec();
             if let Some(last_log) = self.logs.last_mut() {
+                // the file that now ends the log is open for appends again
+                last_log.log_range.is_close = false;
+                last_log.log_range.record_count = 0;
                 let log_actor = if let Some(log_actor) = &last_log.log_actor {
                     log_actor.clone()
                 } else {
@@ -1296,6 +1307,9 @@ impl RaftLogManager {
                 };
                 self.current_log_actor = Some(log_actor);
             }
+            let save_logs = self.logs.iter().map(|e| e.log_range.clone()).collect();
+            let index_request = RaftIndexRequest::SaveLogs(save_logs);
+            self.index_manager.as_ref().unwrap().do_send(index_request);
         }
         if let Some(tx) = tx {
             let _ = tx.send(Ok(WriteLogResult::Success));
